@@ -219,7 +219,31 @@ def pipe_probe(ctx):
     return json.loads(p.stdout.strip().split('\n')[-1])
 
 
+def atomicity(ctx):
+    """the model's atomic put/get, checked on the implementation: every interleaving of the deque and lock
+    operations of the real FastQueue for small programs of 2-3 threads must produce the outcome of an atomic order"""
+    import subprocess
+    from vlib.ctx import impl_env
+    code = ('import json,sys; sys.path.insert(0, %r); from harness import queue_atomic as A; '
+            'p, n = A.check_all(%d); print(json.dumps({"problems": p[:5], "schedules": n}))'
+            % (coq.VERIF, 4000 if ctx.quick else 40000))
+    try:
+        out = subprocess.run(['/venv/bin/python', '-c', code], stdout=subprocess.PIPE, stderr=subprocess.PIPE, text=True,
+                             env=impl_env(), timeout=1200)
+        res = json.loads(out.stdout.strip().split('\n')[-1])
+    except Exception as e:
+        ctx.obligation('atomicity-explorer-ran', False, repr(e) + (out.stderr[-600:] if 'out' in dir() else ''))
+        return
+    ctx.monitor['fastqueue_interleavings_explored'] = res['schedules']
+    for p_ in res['problems'][:2]:
+        ctx.violation('C19 monitor on the implementation: FastQueue is not atomic: with maxSize %r, initial content %r and threads %r '
+                      'the interleaving %r ends with results %r and content %r - %s'
+                      % (p_['max_size'], p_['prefill'], p_['programs'], p_['schedule'], p_.get('results'), p_.get('final'), p_['what']),
+                      {'kind': 'fastqueue_interleaving', 'case': p_}, found_input=True)
+
+
 def correspondence(ctx):
+    atomicity(ctx)
     n = 1000 if ctx.quick else 12000
     base = ctx.seed * 1000003 % (2 ** 31)
     seeds = [base + i for i in range(n)]
